@@ -171,11 +171,13 @@ class Ctx:
     def bad(self, rule, key, message, file="", line=0, witness="", **facts):
         from . import pm
 
+        robust = bool(facts.pop("robust", False))
+
         pm.take_log()
         # every violation is reported against code the analysis still recognises: the function (top-level form) the
         # finding is about must be nearly the reviewed one.  In a function rewritten at large the facts a rule extracts
         # can mean something else than they did when the rule was confirmed; the instance is then unresolved.
-        if not os.environ.get("HYVERIF_EDIT_STATS") and not self._recognised(file, line):
+        if not os.environ.get("HYVERIF_EDIT_STATS") and not self._recognised(file, line, loose=robust):
             self.unres(rule, key, f"not reported, the code is no longer recognised ({getattr(self, 'last_recognition', '')}): " + message[:200])
             return
         if os.environ.get("HYVERIF_EDIT_STATS"):
@@ -226,7 +228,7 @@ class Ctx:
             self.unres(rule, key, "construct not recognised: " + message[:160])
         return cond
 
-    def _recognised(self, file, line):
+    def _recognised(self, file, line, loose=False):
         """An armed absence test is believed only where the function it looked at is (nearly) the reviewed function:
         see fdiff.  Files without a function-level reference (.hy sources) are taken as recognised."""
         src = getattr(self, "src", None)
@@ -239,7 +241,7 @@ class Ctx:
                 self.last_recognition = why
                 return ok
             mod = src.variant(True).py(file)
-            ok, why = fdiff.small_edit(mod, line or 0) if line else fdiff.file_small_edit(mod)
+            ok, why = fdiff.small_edit(mod, line or 0, loose) if line else fdiff.file_small_edit(mod)
         except Exception:
             return False
         self.last_recognition = why
@@ -251,6 +253,11 @@ class Ctx:
             self.unres(rule, key, "construct not recognised: " + message[:160])
             return None
         return self.check(bool(verdict), rule, key, message, file, line, witness, detail, strict=True, **facts)
+
+    def decide_tt(self, rule, key, verdict, message, file="", line=0, witness="", detail="", **facts):
+        """decide() for a verdict read off a complete path-condition truth table (boolfn): the counterexample is explicit,
+        so the finding is believed in a function that was edited more heavily than the default gate allows."""
+        return self.decide(rule, key, verdict, message, file, line, witness, detail, robust=True, **facts)
 
     def need(self, cond, what):
         """A construct inside an anchored function that the following rules build on.  When it is not recognisable the
